@@ -1096,6 +1096,70 @@ func c11RoundE(c *Ctx, w *World) {
 		}
 	}
 
+	c.Rule("C11.H12", "ATOMIC", "a header becomes durable together with its place in the index: HeaderChain.WriteHeader — the header-import path of fast and light sync — hands the header, its number→hash entry and the head-header marker to ONE write batch (every rawdb.Write* call in it has the same writer, the result of NewBatch(), and the batch is written before the in-memory head moves). Written one by one, a kill after the header and before the number→hash entry leaves a header that InsertHeaderChain skips as known on re-import: the index keeps a hole below the head for good")
+	c.Min(1)
+	{
+		wh := w.Fn("core", "HeaderChain", "WriteHeader")
+		c.sawFunc(fname(wh))
+		var writers []ssa.Value
+		var first ssa.CallInstruction
+		for _, ci := range callInstrs(wh) {
+			o := calleeObj(ci)
+			if o == nil || o.Pkg() == nil || o.Pkg().Path() != full("core/rawdb") || !strings.HasPrefix(o.Name(), "Write") {
+				continue
+			}
+			if first == nil {
+				first = ci
+			}
+			writers = append(writers, stripConv(callArgs(ci)[0]))
+		}
+		c.sites++
+		if len(writers) < 2 {
+			c.Undecided(fname(wh)+"#one-batch", wh.Pos(), "fewer than two rawdb.Write* calls found in HeaderChain.WriteHeader")
+		} else {
+			why := ""
+			for _, wv := range writers {
+				if wv != writers[0] {
+					why = "the writes go to different writers"
+				}
+			}
+			if why == "" {
+				cc, isCall := writers[0].(*ssa.Call)
+				if !isCall || calleeObj(cc) == nil || calleeObj(cc).Name() != "NewBatch" {
+					why = "the writes go straight to the database, one put at a time"
+				} else {
+					// the batch is written before the in-memory head moves
+					var flushes, stores []ssa.Instruction
+					for _, cj := range callInstrs(wh) {
+						oj := calleeObj(cj)
+						if oj == nil {
+							continue
+						}
+						if oj.Name() == "Write" && callRecv(cj) != nil && stripConv(callRecv(cj)) == writers[0] {
+							flushes = append(flushes, cj.(ssa.Instruction))
+						}
+						if oj.Name() == "Store" {
+							if fa, isFA := stripConvNoBind(callRecv(cj)).(*ssa.FieldAddr); isFA {
+								if f := fieldOfAddr(fa); f != nil && f.Name() == "currentHeader" {
+									stores = append(stores, cj.(ssa.Instruction))
+								}
+							}
+						}
+					}
+					if len(flushes) == 0 {
+						why = "the batch is never written"
+					}
+					for _, st := range stores {
+						if !mustPassBefore(st, flushes) {
+							why = "the in-memory head header moves before the batch is written"
+						}
+					}
+				}
+			}
+			c.Check(fname(wh)+"#one-batch", first.Pos(), why == "", ifelse(why == "", "header, number→hash entry and head marker go through one batch that is written before the head moves", why+": a kill between the puts leaves a stored header without its index entry, which re-import skips as known"))
+		}
+	}
+
 	c.Rule("C11.H10", "ALWAYS-WITH", "the head is one block: setHeadBlock, the in-memory head setter used by insert and at the end of a reorganisation, moves the head header (hc.currentHeader) and the head block (currentBlock) together on every path. Moving the header only forward leaves CurrentHeader() on the dropped branch's tip after a competing branch of equal or lower height became canonical — neither the head block's header nor the canonical header of its number, and different from what a restart reads from the markers")
 	c.Min(1)
 	{
